@@ -163,6 +163,15 @@ def run(ctx, log):
     for src, exp in [("!ja", "OK b0"), ("!nee", "OK b1"), ("!1", "ERR Type"), ("-ja", "ERR Type"), ("-\"a\"", "ERR Type"), ("!(als nee { 1 })", "ERR Type"),
                      ("functie f(x) { !x } f(nee)", "OK b1"), ("-[1]", "ERR Type"), ("--5", "OK i5"), ("!!ja", "OK b1"), ("-(0 - 5)", "OK i5")]:
         un.append((src, exp))
+    # the SAME value on both sides (one variable, an alias, a parameter against itself): IEEE NaN is not equal to itself
+    same = {"0.0 / 0.0": ("OK #0=A[b0,b1,b0,b0,b0,b0]"), "1.5": "OK #0=A[b1,b0,b0,b1,b0,b1]", "7": "OK #0=A[b1,b0,b0,b1,b0,b1]", "\"tekst\"": "OK #0=A[b1,b0,b0,b1,b0,b1]",
+            "ja": "OK #0=A[b1,b0,b0,b1,b0,b1]", "(0 - 1152921504606846975 - 1)": "OK #0=A[b1,b0,b0,b1,b0,b1]", "1.0 / 0.0": "OK #0=A[b1,b0,b0,b1,b0,b1]"}
+    for v, exp in same.items():
+        un.append(("stel x = %s; [x == x, x != x, x < x, x <= x, x > x, x >= x]" % v, exp))
+        un.append(("stel x = %s; stel y = x; [x == y, y != x, x < y, y <= x, x > y, y >= x]" % v, exp))
+        un.append(("functie f(a, b) { [a == b, a != b, a < b, a <= b, a > b, a >= b] } stel x = %s; f(x, x)" % v, exp))
+    un.append(("stel a = [1]; a == a", "ERR Type"))
+    un.append(("stel f = functie() { 1 }; [f == f, f != f]", "OK #0=A[b1,b0]"))
     uo = vlib.nlh("eval", ["1000 " + vlib.hexs(s) for s, _ in un], tag="c06u")
     ud = vlib.nlh("eval", ["1000 " + vlib.hexs(s) for s, _ in un], tag="c06ud", profile="debug")
     for (src, exp), o, d in zip(un, uo, ud):
